@@ -1621,6 +1621,13 @@ GRIupdatemeta(int32 hdf_file_id, ri_info_t *img_ptr)
     ntstring[1] = (uint8)img_ptr->img_dim.nt;                  /* type */
     ntstring[2] = (uint8)(DFKNTsize(img_ptr->img_dim.nt) * 8); /* width: RIG data is 8-bit chars */
     ntstring[3] = DFNTC_BYTE;                                  /* class: data are numeric values */
+    /* pixels of a little-endian or native number type are stored that way: the
+       record has to say so, or the image is decoded as big-endian once the
+       file has been closed (GRIget_image_list reads this byte back) */
+    if (img_ptr->img_dim.nt & DFNT_LITEND)
+        ntstring[3] = DFNTF_PC;
+    else if (img_ptr->img_dim.nt & DFNT_NATIVE)
+        ntstring[3] = (uint8)DFKgetPNSC(img_ptr->img_dim.nt & (~DFNT_NATIVE), DF_MT);
     if (Hputelement(hdf_file_id, img_ptr->img_dim.nt_tag, img_ptr->img_dim.nt_ref, ntstring, (int32)4) ==
         FAIL)
         HGOTO_ERROR(DFE_PUTELEM, FAIL);
